@@ -110,5 +110,8 @@ func genCrashCases(r *vh.Rand, tier string, n int) []string {
 	if n > 0 {
 		return out
 	}
-	return append(out, genBatchCrashCases(vh.NewRand(r.U64()^0xba7c), tier)...)
+	out = append(out, genBatchCrashCases(vh.NewRand(r.U64()^0xba7c), tier)...)
+	// one save with more than 2048 records in its write batch, the power cut at every
+	// FS operation (a save committed in pieces is torn between its WAL syncs)
+	return append(out, crashLine("crbig.plain", "plain", 0, "all", bigSaveOps()))
 }
